@@ -54,7 +54,8 @@ BPH = ["BEnter", "BBypass", "BPre", "BSeqs", "BPost", "BDeferred", "BEnd"]
 KINDS = {1: "EvStart", 2: "EvEnd", 3: "EvWrite", 4: "EvRead", 5: "EvRelease"}
 CODES = {10: "Wait did not return (no EvRelease)", 11: "the released plan is not Completed/Failed",
          12: "an object is left Running with no listed explanation", 13: "the released plan violates the consistency rules of C04",
-         14: "the deferred group of an entered scope never completed a run", 15: "final status differs from the uninterrupted run's"}
+         14: "the deferred group of an entered scope never completed a run", 15: "final status differs from the uninterrupted run's",
+         16: "the crash image (left by a crashed recovery) shows a plan that had started as NotStarted: no process will ever resume it"}
 OBJK = {1: "plan", 2: "check group", 3: "block", 4: "sequence", 5: "check action", 6: "sequence action"}
 
 ASSUMPTIONS = [
@@ -155,7 +156,7 @@ def classify(ctx, which, live, res, known):
             out["none"].append(c)
             continue
         if c["kind"] == "run":
-            if r[0] != [0] or r[1] != [0]:
+            if r[0] != [0] or r[1] != [0] or r[2] != [0]:
                 out["run_bad"].append((c, r))
             continue
         acc, need, nore, conv0, mneed, convk, wf = r
@@ -219,7 +220,9 @@ def verdicts(ctx, which, cases, cl, known, tag=None):
         c, r = cl["run_bad"][0]
         if c.get("note", "").startswith("hang") or is_hang(c):
             ctx.notes.append("uninterrupted run %s hung (release obligation of C04/C06)" % c["id"])
-        why = ("engine automaton: " + str(r[0])) if r[0] != [0] else "read-back %d differs from crash_image sh tr %d" % (r[1][1], r[1][1])
+        why = (("engine automaton: " + str(r[0])) if r[0] != [0] else
+               ("read-back %d differs from crash_image sh tr %d" % (r[1][1], r[1][1])) if r[1] != [0] else
+               ("the resumed automaton started on the fresh plan rejects the uninterrupted run: " + describe_reject(r[2])))
         ctx.violation(replay_obj(ctx, c, "uninterrupted-run-not-in-the-model", "premise of the C09/C10 theorems broken on a real run: " + why, r,
                                  dict(broken="corr_run: " + why, failing_cases=[x[0]["id"] for x in cl["run_bad"][:20]])), nofail=True, tag=tag)
     # flags
